@@ -19,8 +19,9 @@ type boundsProver struct {
 	e     *nilEngine
 	depth int
 	// induction hypotheses of the upper-bound proofs in progress: loop-header phi -> the bound being proved for it
-	ubAssume map[*ssa.Phi]int64
+	ubAssume    map[*ssa.Phi]int64
 	minLenDepth int
+	reDepth     int
 }
 
 // sameSeq: a and b denote the same sequence value (same SSA value, or loads of the same cell with no
@@ -349,6 +350,37 @@ func negateOp(op token.Token) token.Token {
 
 // regexpGroups: number of capture groups of a package-level regexp compiled from a constant pattern.
 func (bp *boundsProver) regexpGroups(re ssa.Value) (int, bool) {
+	// a regexp handed to a helper: the fewest groups any call site passes
+	if prm, isPrm := re.(*ssa.Parameter); isPrm && bp.reDepth < 3 {
+		fn := prm.Parent()
+		idx := -1
+		for i, q := range fn.Params {
+			if q == prm {
+				idx = i
+			}
+		}
+		callers := bp.c.P.Callers(fn)
+		if idx < 0 || len(callers) == 0 {
+			return 0, false
+		}
+		least := -1
+		bp.reDepth++
+		defer func() { bp.reDepth-- }()
+		for _, e := range callers {
+			args := e.Site.Common().Args
+			if idx >= len(args) {
+				return 0, false
+			}
+			n, ok := bp.regexpGroups(args[idx])
+			if !ok {
+				return 0, false
+			}
+			if least < 0 || n < least {
+				least = n
+			}
+		}
+		return least, least >= 0
+	}
 	ld, ok := re.(*ssa.UnOp)
 	if !ok || ld.Op != token.MUL {
 		return 0, false
